@@ -648,17 +648,43 @@ def check_consistency_disjunction(ctx, rep, f, rule='R-SYM.or'):
         (m1, [c1]), (m2, [c2]) = sorted(comps.items())
         ok = True
         witness = None
+        # the other boolean leaves of the condition (e.g. "both accepting or both not") are quantified over: a conflict must
+        # reject whatever they say, and without a conflict some value of them must let the pair pass
+        leaves = []
+
+        def collect(e):
+            if isinstance(e, ast.BoolOp):
+                for v in e.values:
+                    collect(v)
+            elif isinstance(e, ast.UnaryOp) and isinstance(e.op, ast.Not):
+                collect(e.operand)
+            elif e is not c1 and e is not c2:
+                k = ' '.join(u(e).split())
+                if k not in leaves:
+                    leaves.append(k)
+        collect(t)
+        if len(leaves) > 4:
+            rep.undecided(rule, f, st, 'rejecting condition with more than four further conditions')
+            continue
+        import itertools as _it
         try:
             for a in (False, True):
                 for b in (False, True):
-                    atoms = {}
-                    for c, conflict in ((c1, a), (c2, b)):
-                        val = conflict if isinstance(c.ops[0], ast.NotEq) else not conflict
-                        atoms[' '.join(u(c).split())] = val
-                    rejected = bool(abseval.ev(t, {}, atoms))
-                    if rejected != (a or b):
+                    passes = False
+                    for other in _it.product((False, True), repeat=len(leaves)):
+                        atoms = dict(zip(leaves, other))
+                        for c, conflict in ((c1, a), (c2, b)):
+                            val = conflict if isinstance(c.ops[0], ast.NotEq) else not conflict
+                            atoms[' '.join(u(c).split())] = val
+                        rejected = bool(abseval.ev(t, {}, atoms))
+                        if (a or b) and not rejected:
+                            ok = False
+                            witness = (a, b, rejected)
+                        if not rejected:
+                            passes = True
+                    if not (a or b) and not passes:
                         ok = False
-                        witness = (a, b, rejected)
+                        witness = (a, b, True)
         except abseval.Unsupported as e:
             rep.undecided(rule, f, st, 'rejecting condition outside the fragment: {}'.format(e))
             continue
